@@ -19,7 +19,8 @@ def all_templates():
          g.merge('Dave', 'Bob'), g.expect_version_fails('alice'), g.unknown_type_last('alice'), g.unknown_type_first('alice'),
          g.unknown_type_middle('alice', 'bob'), g.key_conflict_at_commit('bob'), g.create_person('bob', 'Dup'),
          g.unbound_handle(), g.double_ensure_same_tuple('alice', 'tabs'),
-         g.double_ensure_anonymous('carol', 'spaces'), g.double_ensure_anonymous('dave', 'vim', False), g.double_ensure_anonymous('alice', 'vim'), g.purge_then_conflict('Bob', 'alice'),
+         g.double_ensure_anonymous('carol', 'spaces'), g.double_ensure_anonymous('dave', 'vim', False), g.double_ensure_anonymous('alice', 'vim'),
+         g.touch_twice('alice'), g.anon_ensure_then_fail('bob', 'emacs'), g.ensure_expect_version_fails('carol', 'dark'), g.purge_then_conflict('Bob', 'alice'),
          g.purge('Bob')]
     stmts = []
     for x in t:
